@@ -42,6 +42,12 @@ def kernel_configs(ctx):
     out.append(("sym", 3, "plus", 0, "wf", 7, 1.5, 1, False, False))
     for i in (0, 1):
         out.append(("sym", 4, "plus", i, "wf", 7 if q else 8, 2.5, 1, False, False))
+    # the same kernels with the order-parameter axis moved so that the cap / lambda_0 is exactly 0.0
+    # (name 'sym@<shift>', see vf/lattice.SHIFT; weights and spaces are those of the unshifted system)
+    out.append(("sym@-2.5", 4, "plus", 1, "wf", 6, 2.5, 1, False, False))
+    out.append(("sym@-1.5", 3, "plus", 0, "wf", 6, 1.5, 1, False, False))
+    out.append(("sym@-0.5", 3, "plus", 0, "sh", 6, None, None, False, False))
+    out.append(("sym@-0.5", 3, "minus", 0, "sh", 6, None, None, False, False))
     if not q:
         out.append(("sym", 4, "plus", 0, "wf", 7, 2.5, 2, False, False))
         out.append(("sym", 4, "plus", 2, "wf", 8, None, 1, False, False))
@@ -75,7 +81,7 @@ def swap_configs(ctx):
     return [("sym", 3, 6 if q else 8, "sh", None), ("drift", 3, 6 if q else 8, "sh", None),
             ("sym", 4, 6 if q else 7, "sh", None),
             ("sym", 3, 6 if q else 7, "wf", None), ("sym", 4, 6 if q else 7, "wf", 2.5),
-            ("drift", 3, 6, "wf", None)]
+            ("drift", 3, 6, "wf", None), ("sym@-0.5", 3, 5, "sh", None), ("sym@-2.5", 4, 5, "wf", 2.5)]
 
 
 def run(ctx):
@@ -204,7 +210,8 @@ def _swap_kernel_job(args):
 
     name, B, M, o0, o1, move1, cap, _ = args
     dyn = c09.mkdyn(name, B)
-    K, recs, n = moves.swap_kernel(dyn, o0, o1, M, move1=move1, cap=cap)
+    with lat.shifted(c09.shift_of(name)):
+        K, recs, n = moves.swap_kernel(dyn, o0, o1, M, move1=move1, cap=cap)
     return (name, B, M, move1, cap), (o0, o1), {k: (v.numerator, v.denominator) for k, v in K.items()}, n
 
 
@@ -247,7 +254,8 @@ def replay(data):
         l0, l1 = swap_space(M, move1)
         for o0 in lp.enumerate_paths(dyn, "minus", l0):
             for o1 in lp.enumerate_paths(dyn, "plus", l1, i=0):
-                K, _, _ = moves.swap_kernel(dyn, o0, o1, M, move1=move1, cap=cap)
+                with lat.shifted(c09.shift_of(name)):
+                    K, _, _ = moves.swap_kernel(dyn, o0, o1, M, move1=move1, cap=cap)
                 rows[(o0, o1)] = K
         cfg1 = (name, B, "plus", 0, move1, M, cap, None, False, False)
         pi = {s: dyn.path_weight(s[0]) * weight(cfg1, dyn, s[1]) for s in rows}
